@@ -23,7 +23,13 @@ code -> spec : seeded random long histories (requests made after many others, in
                styles), random dependency graphs of up to 6 tasks with random job lists, and jobs made of the
                tasks that the wrappers / factories of a random history produced (listed directly or reached
                through hard / soft dependencies of the job's own tasks); TLC judges the recorded events
-               against FactoryTrace.tla.
+               against FactoryTrace.tla.  Size boundaries: a few long histories per run in which requests of every
+               kind are made, then 1 100 / 2 100 (thorough: / 5 000) distinct cheap filler requests of EACH kind (new
+               functions in every construction style, maps, new argument lists on every factory; made, not executed;
+               one `fill` event per block, which enters the history of FactoryTrace.tla request by request), then the
+               identical requests again and later dependents of the first tasks (an earlier and a later dependent also
+               as one job).  The same history without its fillers is judged beside it: only what fails with the
+               fillers alone gets a key of its own (.../after-many-other-requests).
 """
 import json
 import zlib
@@ -150,9 +156,13 @@ class World:
                                                            'soft_deps': [self.bases[t] for t in FAC_OWN[F][1]]} if F in FAC_OWN else {}))
                      for F in FAC_NAMES}
         self.tasks = []          # identity classes: class k = self.tasks[k - 1]
+        self._index = {}         # id(task) -> class
         self.creator = {}        # class -> the request it was first returned for
         self.uses = {}           # class -> the Use object that generated it (for Use.map)
         self.obs_cache = {}
+        self.control = 0         # trace id of the same history without its filler requests
+        self.cstep = {}          # event index -> event index in the control history
+        self.pairs = []          # (earlier dependent, later dependent) of one task: a job for collect
         if World._ROOT is None or World._ROOT[0] != os.getpid():
             # one scratch root per check process (created by the parent, removed by tlc.cleanup()); pool workers get a
             # sub-directory of it so that nothing is left behind when they are terminated
@@ -187,18 +197,26 @@ class World:
         return '?'
 
     def _class_of(self, task):
-        for k, t in enumerate(self.tasks, 1):
-            if t is task:
-                return k
+        # (the tasks are kept alive in self.tasks, so id() identifies them)
+        k = self._index.get(id(task))
+        if k is not None and self.tasks[k - 1] is task:
+            return k
         self.tasks.append(task)
+        self._index[id(task)] = len(self.tasks)
         return len(self.tasks)
+
+    def _func(self, fid):
+        """The function object of a request: one of FUNC_NAMES, or the function of filler request <x> (`fill<x>`, named so)."""
+        if fid not in self.funcs and fid.startswith('fill') and fid[4:].isdigit():
+            self.funcs[fid] = _make_named(fid, fid)
+        return self.funcs[fid]
 
     # -- requests ------------------------------------------------------------------------
     def build_use(self, req, style):
         """The wrapper object for a use request.  pos is in CALL order; stacked decorators provide the
         positional arguments from the outside in, i.e. the last wrapper applied gives the first argument."""
         Use, using = self.use_mod.Use, self.use_mod.using
-        func = self.funcs[req['func']]
+        func = self._func(req['func'])
         deps_type = 'soft' if req['soft'] else 'hard'
         pos = [(self._obj(p['task']), p['key']) for p in req['pos']]
         kws = [(x['kw'], self._obj(x['task']), x['key']) for x in sorted(req['kw'], key=lambda x: x['kw'])]
@@ -287,6 +305,24 @@ class World:
         self.obs_cache[k] = obs
         return obs
 
+    def fill(self, n, templates, styles, start):
+        """n filler requests x = start .. start + n - 1 (see filler_request), made but not executed: one event."""
+        resps = []
+        for x in range(start, start + n):
+            resps.append(self.request(filler_request(templates[x % len(templates)], x), styles[x % len(templates)])[0])
+        ev = dict(op='fill', n=n, start=start, templates=templates, styles=list(styles), resps=resps)
+        self.events.append(ev)
+        return ev
+
+    def flat(self, upto=None):
+        """(event index, request, answer) of every request made, the fillers one by one."""
+        for i, ev in enumerate(self.events[:upto]):
+            if ev['op'] == 'fill':
+                for k, resp in enumerate(ev['resps']):
+                    yield i, filler_request(ev['templates'][(ev['start'] + k) % len(ev['templates'])], ev['start'] + k), resp
+            else:
+                yield i, ev['req'], ev['resp']
+
     def step(self, req, style='stack'):
         resp, exc = self.request(req, style)
         obs = self.observe(resp) if resp else dict(kind='none', func='-', pos=[], kw=[], fac='-', args=[], hard=[], soft=[])
@@ -311,6 +347,34 @@ def meaning_of_tla(m):
                 fac=m['fac'], args=list(m['args']), hard=sorted(m['hard']), soft=sorted(m['soft']))
 
 
+def filler_request(template, x):
+    """Filler request number x: the template with the function `fill<x>` (use) / the additional last argument `fill<x>` (make):
+    a request that nothing else makes (FactoryTrace.tla: FillReq)."""
+    req = json.loads(json.dumps(template))
+    if req['kind'] == 'use':
+        req['func'] = 'fill%d' % x
+    else:
+        req['args'] = list(req['args']) + ['fill%d' % x]
+    return req
+
+
+def case_requests(evs):
+    """The requests / construction styles of recorded events as stored in a replay case (a block of fillers is one entry)."""
+    return [dict(kind='fill', n=e['n'], start=e['start'], templates=e['templates']) if e['op'] == 'fill' else e['req'] for e in evs]
+
+
+def case_styles(evs):
+    return [e['styles'] if e['op'] == 'fill' else e['style'] for e in evs]
+
+
+def run_case_requests(world, case):
+    for req, style in zip(case['requests'], case.get('styles') or ['stack'] * len(case['requests'])):
+        if req['kind'] == 'fill':
+            world.fill(req['n'], req['templates'], style if isinstance(style, list) else [style] * len(req['templates']), req['start'])
+        else:
+            world.step(req, style)
+
+
 def same_request(a, b):
     return json.dumps(a, sort_keys=True) == json.dumps(b, sort_keys=True)
 
@@ -322,7 +386,9 @@ def conflict_key(req, other):
         return 'C15/shared-task/%s-and-%s' % (other['kind'], req['kind'])
     if req['kind'] == 'use':
         if req['func'] != other['func']:
-            both_lambda = FUNC_NAMES[req['func']] == '<lambda>' and FUNC_NAMES[other['func']] == '<lambda>'
+            if req['func'] not in FUNC_NAMES or other['func'] not in FUNC_NAMES:       # (a filler function: its name is its own)
+                return 'C15/use/shared-task/other-function'
+            both_lambda = FUNC_NAMES.get(req['func']) == '<lambda>' and FUNC_NAMES.get(other['func']) == '<lambda>'
             return 'C15/use/cache-by-name/' + ('other-lambda' if both_lambda else 'other-function-same-name')
         inj = lambda r: sorted([(p['task'], p['key'], 'pos') for p in r['pos']] + [(x['task'], x['key'], 'kw:' + x['kw']) for x in r['kw']])
         a, b = inj(req), inj(other)
@@ -356,6 +422,8 @@ def acts_key(req, obs, exp):
 def classify(world, idx, clauses, exp_meaning=None):
     """Key and description for failing clauses at event idx of world.events."""
     ev = world.events[idx]
+    if ev['op'] == 'fill':
+        return classify_fill(world, idx, clauses)
     req, resp = ev['req'], ev['resp']
     if resp and not same_request(world.creator[resp], req):
         other = world.creator[resp]
@@ -363,11 +431,10 @@ def classify(world, idx, clauses, exp_meaning=None):
                                           'the task does %s' % (req, world.tasks[resp - 1].name, other, ev['obs']))
     if resp and 'Inj' in clauses:
         # the task is the right one for this request, but a different request was answered with it earlier
-        for j in range(idx):
-            e = world.events[j]
-            if e['resp'] == resp and not same_request(e['req'], req):
-                return conflict_key(e['req'], req), ('request %s had silently been answered with the task %r generated for the different '
-                                                     'request %s' % (e['req'], world.tasks[resp - 1].name, req))
+        for _j, ereq, eresp in world.flat(idx):
+            if eresp == resp and not same_request(ereq, req):
+                return conflict_key(ereq, req), ('request %s had silently been answered with the task %r generated for the different '
+                                                 'request %s' % (ereq, world.tasks[resp - 1].name, req))
     if 'Same' in clauses:
         return 'C15/%s/identical-requests-different-tasks' % req['kind'], 'request %s repeated: answer %s (%s)' % (req, resp, ev['exc'])
     if 'ErrorOK' in clauses:
@@ -375,6 +442,23 @@ def classify(world, idx, clauses, exp_meaning=None):
     exp = exp_meaning or {}
     diff = [f for f in ('kind', 'func', 'pos', 'kw', 'fac', 'args', 'hard', 'soft') if exp and ev['obs'].get(f) != exp.get(f)]
     return acts_key(req, ev['obs'], exp), 'request %s: the new task does %s%s' % (req, ev['obs'], ' (differs in %s)' % diff if diff else '')
+
+
+def classify_fill(world, idx, clauses):
+    """Key and description for a block of filler requests that TLC rejects: the first filler answered with a task that
+    answered another request (a label: the verdict is TLC's)."""
+    seen = {}
+    for j, req, resp in world.flat(idx + 1):
+        if resp and resp in seen and not same_request(seen[resp], req):
+            if j == idx:
+                return conflict_key(req, seen[resp]), ('filler request %s (one of %d distinct requests made in a row) was silently answered with '
+                                                       'the task %r generated for the different request %s'
+                                                       % (req, world.events[idx]['n'], world.tasks[resp - 1].name, seen[resp]))
+        elif resp:
+            seen.setdefault(resp, req)
+        elif j == idx and 'ErrorOK' in clauses:
+            return 'C15/%s/error-on-first-request' % req['kind'], 'request %s raised an exception although nothing different was asked before' % (req,)
+    return 'C15/fill/%s' % '+'.join(sorted(clauses)), 'a block of %d distinct filler requests: clauses %s false' % (world.events[idx]['n'], sorted(clauses))
 
 
 # ---------------------------------------------------------------------------------------------
@@ -638,6 +722,8 @@ def observe_collect(case, collector=None):
 def _json_event(tid, step, ev):
     if ev['op'] == 'req':
         return dict(op='req', tid=tid, step=step, req=ev['req'], resp=ev['resp'], obs=ev['obs'])
+    if ev['op'] == 'fill':
+        return dict(op='fill', tid=tid, step=step, n=ev['n'], start=ev['start'], templates=ev['templates'], resps=ev['resps'])
     if ev['op'] == 'collect':
         c = ev['case']
         return dict(op='collect', tid=tid, step=step, names=c['names'], rel=c['rel'], job=c['job'],
@@ -684,8 +770,7 @@ def replay_case(case):
         return False, 'clauses %s false: job %s of the tasks named %s with dependencies %s: observed %s' % (
             sorted(verdict[(1, 1)]), case['job'], case['names'], case['rel'], obs)
     world = World()
-    for req, style in zip(case['requests'], case.get('styles') or ['stack'] * len(case['requests'])):
-        world.step(req, style)
+    run_case_requests(world, case)
     if case['op'] == 'collect-world':
         gcase, objs, job = world_collect(world, case)
         collector = Collector()
@@ -709,6 +794,8 @@ def replay_case(case):
     if not verdict:
         return True, 'all clauses of Factory.tla hold on the %d answers' % len(world.events)
     (tid, step), clauses = sorted(verdict.items())[0]
+    if 'BlockMismatch' in clauses:
+        raise tlc.MachineryError('FactoryTrace.tla: the block clauses and the step clauses disagree on the fillers of event %d' % step)
     key, what = classify(world, step - 1, clauses)
     return False, 'request %d: clauses %s false (%s): %s' % (step, sorted(clauses), key, what)
 
@@ -827,7 +914,8 @@ def run_c15(ctx):
              'through valjean.cambronne.common.collect_tasks, build_graphs and close_dependency_graph + check_unique_task_names. '
              'code->spec: seeded random long histories, random graphs with random job lists, and jobs over the tasks the wrappers / '
              'factories of each history produced (listed or reached through hard / soft dependencies of the job\'s own tasks), '
-             'judged by TLC (FactoryTrace.tla). distinct_nontrivial counts distinct histories with at least two different requests, and '
+             'judged by TLC (FactoryTrace.tla); long histories in which every kind of request is repeated (and gets later dependents) '
+             'after 1100 / 2100 / (thorough) 5000 distinct filler requests of each kind, and short filler blocks inside random histories. distinct_nontrivial counts distinct histories with at least two different requests, and '
              'collections (graph, names, job list) with a dependency reached only transitively or a duplicated name.')
     ctx.assume('separately created wrappers with identical parameters are identical requests; different factory objects are '
                'different requests; serialize is not varied; positional arguments are compared in call order (the documented '
@@ -1012,6 +1100,8 @@ def run_c15(ctx):
     for _h in range(nhist):
         world = World()
         for _n in range(rng.randint(4, ctx.pick(10, 14))):
+            if rng.random() < 0.03:
+                fill_all(world, rng.randint(1, 5))        # (a short block of fillers: FactoryTrace compares block and step clauses)
             world.step(*random_request(rng, world))
         worlds.append(world)
     # histories in which two factories with one name are asked for the same thing (two different tasks with one name)
@@ -1033,6 +1123,17 @@ def run_c15(ctx):
     # one wrapper object specialised several times (a base and its branches), every order, both injection ways
     for world in branch_scenarios():
         worlds.append(world)
+    # size boundaries: a large number of distinct cheap requests of every kind between two identical requests of every kind
+    nlong = 0
+    for n in ctx.pick((1100, 2100), (1100, 2100, 5000)):
+        worlds.append(boundary_world(rng, n, extra=nlong % 2 * 3))
+        nlong += 1
+    # the same histories without their fillers: what fails there as well is not a matter of the fillers
+    for world in list(worlds):
+        if any(e['op'] == 'fill' for e in world.events):
+            world.control = len(worlds) + 1         # (trace id)
+            worlds.append(control_world(world))
+    dbg('histories executed (%d with fillers)' % sum(1 for w in worlds if w.control))
     nhist = len(worlds)
     # whatever is created later, a task keeps doing what it was asked for: execute every task again at the end
     for world in worlds:
@@ -1041,11 +1142,11 @@ def run_c15(ctx):
         for k, obs in sorted(first.items()):
             again = world.observe(k)
             if again != obs:
-                idx = next(i for i, e in enumerate(world.events) if e['resp'] == k)
+                idx = next(i for i, e in enumerate(world.events) if e.get('resp') == k)
                 ctx.violation('C15/%s/task-changed-by-later-requests' % world.creator[k]['kind'],
                               'the task answering request %s did %s when it was created and does %s after the later requests %s'
-                              % (world.creator[k], obs, again, [e['req'] for e in world.events[idx + 1:]]),
-                              dict(op='hist', requests=[e['req'] for e in world.events], styles=[e['style'] for e in world.events],
+                              % (world.creator[k], obs, again, case_requests(world.events[idx + 1:])),
+                              dict(op='hist', requests=case_requests(world.events), styles=case_styles(world.events),
                                    reobserve=True), module='conf_factory')
                 break
     traces = [(tid, w.events) for tid, w in enumerate(worlds, 1)]
@@ -1074,31 +1175,60 @@ def run_c15(ctx):
                 collect_event(('graph', g), case, case, observe_collect(case, collector))
     # jobs made of the tasks that the wrappers and factories of a history produced
     nwjobs = nclash = 0
+    wjobs = []
     for w, world in enumerate(worlds):
-        spec = random_world_job(rng, world)
-        case = dict(spec, op='collect-world', requests=[e['req'] for e in world.events], styles=[e['style'] for e in world.events])
+        wjobs.append((w, random_world_job(rng, world)))
+        # the earlier and the later dependent of one generated task in one job
+        for n, (early, late) in enumerate(world.pairs[:4]):
+            wjobs.append((w, dict(tops=[], job=[early, late], via=COLLECT_VIAS[n % 3])))
+    for w, spec in wjobs:
+        world = worlds[w]
+        case = dict(spec, op='collect-world', requests=case_requests(world.events), styles=case_styles(world.events))
         gcase, objs, job = world_collect(world, case)
         if gcase['ntasks'] > MAX_COLLECT:
             continue
         nwjobs += 1
         for via in [spec['via']] + (['collect_tasks'] if spec['via'] == 'build_graphs' else []):
-            collect_event(('world', w), dict(case, via=via), dict(gcase, via=via), collector.collect(objs, job, via))
+            collect_event(('world', w, nwjobs), dict(case, via=via), dict(gcase, via=via), collector.collect(objs, job, via))
         if len(set(gcase['names'])) < len(gcase['names']):
             nclash += 1
             ctx.distinct(('world-collect', tuple(gcase['names']), json.dumps(gcase['rel']), tuple(job)))
     collector.close()
     dbg('random histories and graphs executed (%d collections, %d jobs of generated tasks, %d of them with a repeated name)'
         % (len(ctraces), nwjobs, nclash))
-    verdict, nev = tlc_verdict(traces + ctraces, wd, ctx, 'FactoryTrace/random')
+    # negative self-test of the filler blocks in FactoryTrace.tla: recorded histories with one answer falsified
+    selftest = filler_selftest()
+    stid = nhist + len(ctraces)
+    verdict, nev = tlc_verdict(traces + ctraces + [(stid + n, evs) for n, (evs, _exp) in enumerate(selftest, 1)], wd, ctx, 'FactoryTrace/random')
+    for n, (evs, expected) in enumerate(selftest, 1):
+        got = dict((step, sorted(verdict.pop((stid + n, step)))) for step in range(1, len(evs) + 1) if (stid + n, step) in verdict)
+        if got != expected:
+            raise tlc.MachineryError('FactoryTrace.tla judges the falsified filler history %d as %s, expected %s' % (n, got, expected))
     dbg('judged by TLC: %d events, %d failing' % (nev, len(verdict)))
     failed_ct = set(crec[tid][0] for (tid, _step) in verdict if tid > nhist and crec[tid][1]['via'] == 'collect_tasks')
     for (tid, step), clauses in sorted(verdict.items()):
         if tid <= nhist:
             world = worlds[tid - 1]
+            if 'BlockMismatch' in clauses:
+                raise tlc.MachineryError('FactoryTrace.tla: the block clauses and the step clauses disagree on the fillers %s'
+                                         % (case_requests(world.events[step - 1:step]),))
+            nfill = sum(e['n'] for e in world.events[:step - 1] if e['op'] == 'fill')
+            suffix = ''
+            if world.events[step - 1]['op'] == 'fill':
+                suffix = '/filler-requests'
+            elif nfill:
+                # a class of its own only for what does not fail in the same history made without the fillers
+                cidx = world.cstep.get(step - 1)
+                if cidx is not None:
+                    clauses = sorted(set(clauses) - set(verdict.get((world.control, cidx + 1), ())))
+                if not clauses:
+                    continue
+                suffix = '/after-many-other-requests' if nfill >= 1000 else '/after-other-requests'
             key, what = classify(world, step - 1, clauses)
             evs = world.events[:step]
-            ctx.violation(key, '%s; clauses %s false (random history)' % (what, sorted(clauses)),
-                          dict(op='hist', requests=[e['req'] for e in evs], styles=[e['style'] for e in evs]), module='conf_factory')
+            ctx.violation(key + suffix, '%s; clauses %s false (%s)' % (what, sorted(clauses), 'after %d distinct filler requests' % nfill if nfill
+                                                                      else 'random history'),
+                          dict(op='hist', requests=case_requests(evs), styles=case_styles(evs)), module='conf_factory')
         else:
             ev = ctraces[tid - nhist - 1][1][0]
             group, case = crec[tid]
@@ -1114,7 +1244,7 @@ def run_c15(ctx):
                               ' (job %s, its own tasks %s, after the requests of a random history)' % (case['job'], case['tops']) if group[0] == 'world' else ''),
                           case, module='conf_factory')
     for w in worlds:
-        reqs = [json.dumps(e['req'], sort_keys=True) for e in w.events]
+        reqs = [json.dumps(r, sort_keys=True) for r in case_requests(w.events)]
         if len(set(reqs)) > 1:
             ctx.distinct(('rand', tuple(reqs)))
     ctx.count(evaluations=sum(len(w.events) for w in worlds) + len(ctraces), traces=nhist + len(ctraces))
@@ -1123,9 +1253,10 @@ def run_c15(ctx):
     ctx.cov['exhaustive'] = True
     ctx.cov['explanation'] = ('all pairs of requests of the configuration Factory/pairs replayed (%d complete histories, %d cut at a '
                               'permitted explicit error, %d with a violation), %d simulated longer histories, %d closure cases; %d random '
-                              'histories, %d random graphs with random job lists and %d jobs made of the generated tasks of the histories, '
+                              'histories (%d of them long: identical requests repeated after thousands of distinct filler requests of '
+                              'each kind), %d random graphs with random job lists and %d jobs made of the generated tasks of the histories, '
                               'sent through collect_tasks / build_graphs / the parts, judged by TLC (%d events)' % (
-                                  stats['histories'], stats['cut'], stats['bad'], len(behs), n_collect, nhist, ngraphs, nwjobs, nev))
+                                  stats['histories'], stats['cut'], stats['bad'], len(behs), n_collect, nhist, nlong, ngraphs, nwjobs, nev))
 
 
 def branch_scenarios():
@@ -1154,10 +1285,129 @@ def branch_scenarios():
     return out
 
 
+def _use(func, pos, kw=(), soft=False):
+    return dict(kind='use', func=func, pos=[dict(task=t, key=k) for t, k in pos],
+                kw=sorted((dict(kw=n, task=t, key=k) for n, t, k in kw), key=lambda x: x['kw']),
+                soft=soft, fac='-', name='-', args=[], deps=[], sdeps=[])
+
+
+def _make(fac, name, args, deps=(), sdeps=()):
+    own_h, own_s = FAC_OWN.get(fac, ([], []))
+    return dict(kind='make', func='-', pos=[], kw=[], soft=False, fac=fac, name=name, args=list(args),
+                deps=sorted(set(deps) | set(own_h)), sdeps=sorted(set(sdeps) | set(own_s)))
+
+
+def fill_all(world, n):
+    """n distinct cheap requests of EACH kind, made one after the other and not executed: n wrappers over n new functions
+    (positional / keyword / soft / two injections / mapped over and injecting tasks generated earlier, in the construction
+    styles of the harness) and n make calls with n new argument lists on every factory."""
+    start = sum(e['n'] for e in world.events if e['op'] == 'fill')
+    gen = ['#%d' % k for k, r in world.creator.items() if r['kind'] == 'use' and r['func'] in FUNC_NAMES][:2]
+    uses = [(_use('-', [('t1', 'result')]), 'stack'), (_use('-', [], [('x', 't2', 'other')]), 'using'),
+            (_use('-', [('t3', 'result')], soft=True), 'ctor'), (_use('-', [('t2', 'other'), ('t1', 'result')], [('y', 't3', 'result')]), 'kwlast'),
+            (_use('-', [('t2', 'result')]), 'branch')]
+    for g in gen:
+        uses += [(_use('-', [(g, 'result')]), 'map'), (_use('-', [('t1', 'other')], [('x', g, 'other')]), 'stack')]
+    world.fill(n, [t for t, _s in uses], [s for _t, s in uses], start)
+    for fac in sorted(FAC_NAMES):
+        start += n
+        world.fill(n, [_make(fac, '-', []), _make(fac, '-', ['a'], ['t1'], ['t2'])], ['stack', 'stack'], start)
+
+
+def boundary_probes():
+    """One request of every kind the harness has (no two of them with one generated name)."""
+    return [(_use('f1', [('t1', 'result')]), 'stack'),
+            (_use('g', [], [('x', 't2', 'other')]), 'using'),
+            (_use('h', [('t3', 'result')], soft=True), 'ctor'),
+            (_use('lam1', [('t1', 'result'), ('t2', 'other')], [('y', 't3', 'other')]), 'kwlast'),
+            (_use('lam2', [('t3', 'other')], [('x', 't2', 'result')]), 'branch'),
+            (_use('g', [('#1', 'result')]), 'map'),                          # an early dependent of the first task
+            (_use('f2', [('t3', 'result')], [('x', '#2', 'other')]), 'stack'),
+            (_make('F1', '-', ['a']), 'stack'), (_make('F1', 'n1', ['b']), 'stack'), (_make('F2', '-', ['a', 'b'], [], ['t3']), 'stack'),
+            (_make('G1', '-', [], ['t1'], ['t2']), 'stack'), (_make('G1', 'n2', [], ['t1', 't2']), 'stack'), (_make('H1', '-', ['a']), 'stack')]
+
+
+def boundary_world(rng, n, extra=0):
+    """A long history: requests of every kind, n filler requests of each kind (fill_all), the identical requests again (in
+    the construction style of the first time, then in another one), and later dependents of the tasks generated first."""
+    styles = ['stack', 'ctor', 'using', 'kwlast', 'map', 'branch']
+    world = World()
+    for req, style in boundary_probes():
+        world.step(req, style)
+    for _n in range(extra):
+        world.step(*random_request(rng, world))
+    first = [(e['req'], e['style']) for e in world.events]
+    early = dict((k, r) for k, r in world.creator.items() if r['kind'] == 'use')
+    fill_all(world, n)
+    for req, style in first:
+        world.step(json.loads(json.dumps(req)), style)
+    for req, style in first:
+        world.step(json.loads(json.dumps(req)), rng.choice(styles))
+    # an earlier and a later dependent of the tasks generated first
+    for k, creator in sorted(early.items()):
+        deps = [c for c, r in world.creator.items() if r['kind'] == 'use' and r['pos'] == [dict(task='#%d' % k, key='result')]
+                and not r['kw'] and not r['soft']]
+        func = 'h' if FUNC_NAMES.get(creator['func']) != 'h' else 'g'
+        ev = world.step(_use(func, [('#%d' % k, 'result')]), 'map')
+        if deps and ev['resp'] and ev['resp'] not in deps:
+            world.pairs.append(('#%d' % deps[0], '#%d' % ev['resp']))
+    return world
+
+
+def filler_selftest():
+    """[(events, {step: clauses TLC must find false})]: a recorded history request / fillers / the request again, as recorded
+    and with one answer falsified (two fillers answered with one task; a filler answered with the task of the first request;
+    the repeated request answered with a new task)."""
+    world = World()
+    world.step(_use('f1', [('t1', 'result')]), 'stack')
+    world.fill(3, [_use('-', [('t1', 'result')]), _make('F1', '-', [])], ['stack', 'stack'], 0)
+    world.fill(40, [_use('-', [('t2', 'result')])], ['stack'], 3)
+    world.step(_use('f1', [('t1', 'result')]), 'stack')
+    if [e.get('resp', 0) for e in world.events] != [1, 0, 0, 1] or world.events[1]['resps'] != [2, 3, 4] or world.events[2]['resps'] != list(range(5, 45)):
+        return []          # (the implementation under test does not answer this history as it should: judged elsewhere)
+    copy = lambda: json.loads(json.dumps(world.events))
+    out = [(copy(), {})]
+    evs = copy()
+    evs[1]['resps'] = [2, 3, 2]
+    evs[2]['resps'] = [r - 1 for r in evs[2]['resps']]
+    out.append((evs, {2: ['Inj']}))
+    evs = copy()
+    evs[2]['resps'][17] = 1
+    evs[2]['resps'][18:] = [r - 1 for r in evs[2]['resps'][18:]]
+    out.append((evs, {3: ['Inj'], 4: ['Inj']}))       # (the task of the first request has then answered two different requests)
+    evs = copy()
+    evs[3]['resp'] = 45
+    out.append((evs, {4: ['Same']}))
+    return out
+
+
+def control_world(world):
+    """The history of `world` without its filler requests (generated tasks are renumbered accordingly); world.cstep maps the
+    events of world to the events of the result."""
+    control = World()
+    cls = {}        # class in world -> class in control
+
+    def tr(item):
+        return dict(item, task='#%d' % cls[int(item['task'][1:])]) if item['task'].startswith('#') else item
+
+    for i, ev in enumerate(world.events):
+        if ev['op'] != 'req':
+            continue
+        try:
+            req = dict(ev['req'], pos=[tr(p) for p in ev['req']['pos']], kw=[tr(x) for x in ev['req']['kw']])
+        except KeyError:
+            break         # (injects a task that the control history does not have)
+        world.cstep[i] = len(control.events)
+        cev = control.step(req, ev['style'])
+        if ev['resp'] and cev['resp']:
+            cls.setdefault(ev['resp'], cev['resp'])
+    return control
+
+
 def random_request(rng, world):
     """A request over the large universe, biased towards re-asking and towards near-misses of earlier requests."""
-    earlier = [e['req'] for e in world.events]
-    use_classes = ['#%d' % k for k, r in world.creator.items() if r['kind'] == 'use']
+    earlier = [e['req'] for e in world.events if e['op'] == 'req']
+    use_classes = ['#%d' % k for k, r in world.creator.items() if r['kind'] == 'use' and r['func'] in FUNC_NAMES]
     targets = ['t1', 't2', 't3'] + use_classes[:4]
     r = rng.random()
     if earlier and r < 0.15:
